@@ -99,6 +99,29 @@ impl<R: DynamicChannelRegion> DynamicChannelPlan<R> {
     }
 }
 
+#[cfg(feature = "verif-hooks")]
+impl<R: DynamicChannelRegion> DynamicChannelPlan<R> {
+    pub(crate) fn verif_snapshot(&self) -> crate::verif::RegionSnapshot {
+        let mut channels = [None; 16];
+        for (out, ch) in channels.iter_mut().zip(self.channels.iter()) {
+            *out = ch.map(|c| crate::verif::ChannelSnapshot {
+                ul_frequency: c.ul_frequency(),
+                rx1_frequency: c.rx1_frequency(),
+                dr_min: c._datarates.min_data_rate(),
+                dr_max: c._datarates.max_data_rate(),
+            });
+        }
+        let mut channel_mask = [0u8; 9];
+        channel_mask.copy_from_slice(self.channel_mask.as_ref());
+        crate::verif::RegionSnapshot {
+            fixed_plan: false,
+            channel_mask,
+            channels,
+            join_bias: Default::default(),
+        }
+    }
+}
+
 pub(crate) trait DynamicChannelRegion: ChannelRegion {
     const NUM_JOIN_CHANNELS: u8;
     fn init_channels(channels: &mut ChannelPlan);
